@@ -7,6 +7,7 @@ pub mod explore;
 pub mod history;
 pub mod invariance;
 pub mod messages;
+pub mod names;
 pub mod oracles;
 pub mod probe;
 pub mod props;
@@ -22,7 +23,7 @@ pub mod prelude {
     pub use crate::doc::Doc;
     pub use crate::entry::{entry_all, entry_rec, Entry};
     pub use crate::probe::*;
-    pub use crate::rec::{ConvErr, RecA, RecB, ValErr};
+    pub use crate::rec::{Cheap, ConvErr, RecA, RecB, ValErr};
     pub use serde_cs::vec::CS;
 }
 
